@@ -16,9 +16,10 @@ The bring-up is observed by the ghost automaton `s` of a slot (`Lemmas/Dp.lean`:
   peripheral is asked to be re-parameterised).
 `bringUp_step` says these are the only upward moves.  Theorems are stated for every state satisfying
 the invariants, which every state reached by a contract history does (`reachable`) — histories may
-contain `reset_address()` calls at any point; the bookkeeping invariants `Inv8` / `Inv3` are
-established for histories in which no reset hits the peripheral whose request is in flight or whose
-event is uncollected (`tainted = false`); `never_panics` holds for all.
+contain `reset_address()` calls at any point, also while a request is in flight (the reply is then
+ignored); the bookkeeping invariants `Inv8` / `Inv3` are established for all histories except those in
+which the peripheral in flight is reset to the very address the reply is outstanding from
+(`tainted = false` excludes exactly that); `never_panics` holds for all.
 -/
 import ProfiVerif.Lemmas.Dp03
 
